@@ -39,3 +39,20 @@ FAMILIES.append(Family("scripts", gen_scripts, oplists.run_case, oplists.model_e
                        lambda case, obs: json.dumps(case["ops"]) if sum(1 for o in case["ops"] if o[0] == "enter") >= 2 else None,
                        imports=["Model.Core", "Model.Prog"], project=oplists.project, describe=oplists.describe,
                        shard=40, coq_shard=60))
+
+
+# ---- `with action:` blocks inside generators, left by close()/throw()/exhaustion (the generator model of C15) ----
+from props import C15 as _c15
+
+
+def gen_generators(rng, tier):
+    # scripts in which a generator is closed or thrown into while suspended (inside or outside an action block)
+    cases = [c for c in _c15.gen_scripts(rng, tier)
+             if any(s[0] == "resume" and s[2][0] in ("close", "throw") for s in c["script"])]
+    return cases[:100 if tier == "quick" else 3000]
+
+
+FAMILIES.append(Family("generators", gen_generators, _c15.impl_scripts, _c15.model_scripts, _c15.model_obs_scripts,
+                       _c15.oracle_scripts, _c15.nontrivial_scripts, imports=["Model.Generators"],
+                       project=_c15.project_scripts, shrink=_c15.shrink_scripts, describe=_c15.describe_scripts,
+                       shard=100, coq_shard=30))
